@@ -32,7 +32,8 @@ RULE = ("case = (format, n_frames, entry point, stride, chunk, skip, atom subset
 WORKERS = {"quick": 8, "thorough": 16}
 BUDGET = {"quick": 90, "thorough": 1500}
 EXHAUSTIVE = {"quick": False, "thorough": True}
-FMTS = ["h5", "xtc", "xtc9", "trr", "dcd", "nc", "dtr", "mdcrd", "xyz", "xyz.gz", "lammpstrj", "gro", "pdb", "pdb.gz"]
+FMTS = ["h5", "xtc", "xtc9", "trr", "dcd", "dcd0", "dcd4", "nc", "dtr", "mdcrd", "mdcrd-nobox", "xyz", "xyz.gz", "lammpstrj", "gro", "pdb", "pdb.gz"]
+# dcd0 / dcd4: DCD files as other programs write them (stale header count; CHARMM 4-dimensional), see vlib/gen/files.py
 SUBSETS = {0: None, 1: [0, 2, 3], 2: [1], 3: [0, 1, 2, 3, 4, 5]}
 FLOORS = {"quick": {"load.stride+atoms": 300, "load_frame": 150, "iterload.concat": 800, "iterload.chunk-sizes": 800,
                     "load.list": 80}}
@@ -60,7 +61,7 @@ def _grouped(gen):
         else:
             yield c
             # a thin slice of every native-reader case also rides in the sanitizer build
-            if c["fmt"] in ("xtc", "xtc9", "trr", "dcd", "dtr") and c["i"] % 6 == 0:
+            if c["fmt"] in ("xtc", "xtc9", "trr", "dcd", "dcd0", "dcd4", "dtr") and c["i"] % 6 == 0:
                 d = dict(c)
                 d["group"] = "asan"
                 yield d
@@ -155,12 +156,17 @@ def _file_for(fmt, n, f0=0):
     key = (fmt, n, f0)
     if key in _CACHE:
         return _CACHE[key]
-    ext = "xtc" if fmt == "xtc9" else fmt
+    ext = {"xtc9": "xtc", "dcd0": "dcd", "dcd4": "dcd", "mdcrd-nobox": "mdcrd"}.get(fmt, fmt)
     na = 6 if fmt == "xtc9" else 12
-    cell = "ortho" if files.FORMATS[ext]["cell"] else None
+    cell = "ortho" if files.FORMATS[ext]["cell"] and fmt not in ("dcd4", "mdcrd-nobox") else None
     t = files.ident_traj(n, na, cell=cell, f0=f0)
     path = os.path.join(_TMP, f"f_{fmt}_{n}_{f0}.{ext}")
     t.save(path)
+    if fmt == "dcd0":
+        files.dcd_set_nset(path, 0)
+    elif fmt == "dcd4":
+        os.rename(path, path + ".3d")
+        files.dcd_make_4d(path + ".3d", path, na, n)
     kw = files.load_kwargs(ext, t.topology)
     full = md.load(path, **kw)
     f, a = files.identify(full.xyz)
